@@ -14,7 +14,7 @@ echo -n "demo without change: "; (cd "$d" && PYTHONPATH="$wt/src" timeout 300 /v
 echo -n "suite with change: "; (cd "$wt" && PYTHONPATH="$wt/src" /venv/bin/python -m pytest -q -p no:cacheprovider 2>&1 | tail -1)
 echo -n "demo with change: "; (cd "$d" && PYTHONPATH="$wt/src" timeout 300 /venv/bin/python demo.py >/dev/null 2>&1; echo "rc=$?")
 for p in "$@"; do
-  out=$(VERIF_REPO="$wt" /verif/bin/check "$p" --no-confirm 2>&1)
+  if [ -n "$CONFIRM" ]; then out=$(VERIF_REPO="$wt" /verif/bin/check "$p" 2>&1); else out=$(VERIF_REPO="$wt" /verif/bin/check "$p" --no-confirm 2>&1); fi
   echo "check $p: $(echo "$out" | grep -c '^VIOLATION') violation signatures; $(echo "$out" | grep -m1 'clause' | cut -c1-230)"
   echo "$out" | grep -E "HARNESS" | head -2
 done
